@@ -128,5 +128,19 @@ Spot ==
        /\ Sym("u", AddA(A(6), base)) \in SymUpper(Desc, base)
        /\ Sym("u", AddA(A(4), base)) \notin SymUpper(Desc, base)
 
-AllOK == WF /\ Law /\ LastWriterWins /\ RelAgrees /\ QuickAgrees /\ RelUsable /\ Spot
+\* exported symbols: every GLOBAL / WEAK definition of .dynsym, untyped ones included; locals,
+\* undefined and zero-valued entries are not required
+ExportSpot ==
+  LET d == [Desc EXCEPT !.dynsym =
+              << [name |-> "n", value |-> A(4), type |-> 0, bind |-> 1, shndx |-> 1],
+                 [name |-> "o", value |-> A(5), type |-> 1, bind |-> 2, shndx |-> 1],
+                 [name |-> "f", value |-> A(6), type |-> 2, bind |-> 1, shndx |-> 1],
+                 [name |-> "l", value |-> A(7), type |-> 2, bind |-> 0, shndx |-> 1],
+                 [name |-> "u", value |-> A(0), type |-> 2, bind |-> 1, shndx |-> 0] >>]
+  IN /\ ExportLower(d, base) = { Sym("n", AddA(A(4), base)), Sym("o", AddA(A(5), base)), Sym("f", AddA(A(6), base)) }
+     /\ ExportUpper(d, base) = ExportLower(d, base)
+     /\ ExportsOK(d, base, ExportLower(d, base))
+     /\ ~ExportsOK(d, base, ExportLower(d, base) \ { Sym("n", AddA(A(4), base)) })
+
+AllOK == ExportSpot /\ WF /\ Law /\ LastWriterWins /\ RelAgrees /\ QuickAgrees /\ RelUsable /\ Spot
 =============================================================================
